@@ -119,8 +119,8 @@ def phase2(workers):
     lock = threading.Lock()
 
     def work(k):
-        d = ensure_repo(10 + k)
-        v = ensure_verif(k)
+        d = ensure_repo(20 + k)
+        v = ensure_verif(10 + k)
         env = dict(ENV, GOCACHE="%s/gocache%d" % (MUT, k), VERIF_REPO=d)
         while True:
             try:
@@ -128,7 +128,19 @@ def phase2(workers):
             except queue.Empty:
                 return
             sh("git checkout -q -- .", cwd=d)
-            sh([MUTATE, "-repo", d, "-apply", str(r["id"])])
+            # the mutant is identified by (location, kind): ids are ordinals of the tree they were listed on
+            rc, lst = sh([MUTATE, "-repo", d, "-list"])
+            mid = None
+            for l in lst.strip().split("\n"):
+                i, loc, kind = l.split("\t")
+                if loc == r["loc"] and kind == r["kind"]:
+                    mid = i
+                    break
+            if mid is None:
+                with lock:
+                    open(out_path, "a").write(json.dumps(dict(r, checks={}, caught_by=["(site no longer exists)"])) + "\n")
+                continue
+            sh([MUTATE, "-repo", d, "-apply", mid])
             path = r["loc"].split(":")[0]
             rec = dict(r, checks={})
             for p in props_for(path):
